@@ -1,5 +1,5 @@
 /-
-  C17 (partial) — bounded work.
+  C17 — bounded work.
 
     "Verification of any proof terminates after time and memory bounded by a fixed polynomial in the
      proof's size: no numeric field of the proof (query count, layer count, exponents, sizes, dynamic
@@ -25,19 +25,45 @@
     over the phases of `Stark.verify`, value-driven factors written as the field's value) is at most
     `A + B · size`, with `A`, `B` depending only on the layout.
   * `unvalidated_loop_is_value_driven`: why validation matters.
+  * THE INSTRUMENTED SEMANTICS (section 5; `Proofs/Ticked*.lean`).  `Ticked.verifyT` is a step-counting
+    twin of `Stark.verify`: the same program written in a writer monad (`Ticked.TO α` = outcome +
+    ticks), with a twin for every function on the path that loops or recurses.  Charging scheme
+    (`Proofs/TickedBasic.lean`): one tick per loop iteration / recursive call; one per hash call plus
+    one per absorbed element (`poseidon_hash_many`, masked row hash); `Cost.F = 256` per `pow` /
+    `inverse` (`Ticked.pow_steps`: the square-and-multiply loop takes at most 256 iterations); one per
+    element produced or walked by every bulk list operation (`map`, `flatMap`, `take`, `drop`,
+    `reverse`; `a ++ b` is charged `|a| + |b|`, which covers the model's list append as well as the
+    Rust `push` / `extend`).  Proved:
+      - `verify_ticked_erases`: erasure — the twin computes exactly `Stark.verify` (so the ticked pipeline
+        IS the model plus a counter);
+      - `verify_ticks_le_cost`: for EVERY proof value the tick count is at most `Ticked.verifyCost'`
+        (`Proofs/TickedBoundsStark.lean`), the corrected version of `verifyCost` whose value-driven
+        factors are written as the fields' values;
+      - `verify_ticks_bounded`: once `StarkConfig::validate` accepts, ticks `≤ verifyCost' ≤ A + B · size`;
+      - `sampling_ticks_value_driven`: the contrast — the sampling loop alone takes `2 n` ticks for any `n`;
+      - per-function bounds (`computeRoot_ticks`, `tableDecommit_ticks`, `computeNextLayer_ticks`,
+        `verifyLayers_ticks`, `generateQueries_ticks`).
+    Since every list the twins build is produced by a charged bulk operation or by a `cons` inside a
+    ticked iteration, the tick count also bounds the number of list cells allocated (memory).
+    `verifyCost` (the old formula) under-counts under this scheme; see the comparison in section 5.
 
-  /- UNPROVED: an end-to-end cost SEMANTICS.  `verifyCost` is a formula assembled phase by phase from
-     the loop bounds above; there is no instrumented interpreter whose tick count is proved to be at
-     most `verifyCost`, so the link "the model performs at most `verifyCost L K p` steps" rests on
-     reading `Model/Cost.lean` against `Model/Stark.lean` (each summand is annotated with the loop it
-     counts) plus the per-function lemmas.  The costs of the layout callbacks and of the hash functions
-     are parameters (`LayoutCost`; one unit per hash call), memory is not modelled separately (every
-     list the model builds is produced by one of the counted loops), and dynamic-layout parameters are
-     outside the static-layout model. -/
+  /- UNPROVED / PARAMETERS.  (1) The costs of the hash functions are not modelled: a hash call is
+     charged one tick plus one per absorbed field element, whatever `Hashes` is.  (2) The layout
+     callbacks of `LayoutOps` (`eval_composition_polynomial`, `eval_oods_polynomial`,
+     `validate_public_input`, `verify_public_input` — for the static layouts AND for the dynamic
+     layout) are opaque functions; their step counts enter through the parameter
+     `KF : Ticked.LayoutCostFn` with the HYPOTHESIS `KF.BoundedBy K` (at most `compA + compB·|pi|`,
+     `oods`, `piA + piB·|pi|`); nothing is proved here about the translated layout programs
+     themselves.  (3) Operations on fixed-width values (field arithmetic, comparisons, 32-byte
+     encodings, the 41/40-byte proof-of-work preimages), `List.length`, indexing and `fri_formula`
+     (straight-line, fixed charge 64) are unit-cost by convention.  (4) The tick semantics is that of
+     the MODEL; its agreement with the Rust code is the correspondence check's business. -/
 -/
 import Swiftness.Model.Cost
 import Swiftness.Proofs.Cost
 import Swiftness.Proofs.CostLoops
+import Swiftness.Proofs.TickedLinear
+import Swiftness.Proofs.PipelineExample
 import Swiftness.Props.C04
 import Swiftness.Props.C06
 import Swiftness.Props.C10
@@ -128,7 +154,8 @@ theorem layer_cost_le (nq cs : ℕ) (w : Fri.LayerWitness) (hq : nq ≤ 48) (hcs
 
 /-- After configuration validation the step count of `Model/Cost.lean` is at most linear in the
     number of field elements of the proof value, with constants that depend only on the layout.
-    (PARTIAL: see the `UNPROVED` note in the header for what ties `verifyCost` to the model.) -/
+    (PARTIAL: `verifyCost` is a hand-assembled formula; the step count that is PROVED to bound the
+    instrumented model is `Ticked.verifyCost'`, section 5.) -/
 theorem cost_bound_partial (L : LayoutOps) (K : LayoutCost) (p : Stark.Proof) (sec n1 n2 : Felt)
     (h : p.config.validate sec n1 n2 = .ok ()) :
     verifyCost L K p ≤
@@ -161,6 +188,110 @@ theorem cost_value_driven_without_validation (L : LayoutOps) (K : LayoutCost) (p
   simp only []
   omega
 
+/-! ### 5. the instrumented (step-counting) semantics -/
+
+open Ticked in
+/-- ERASURE: the instrumented verifier returns exactly what `Stark.verify` returns — it is the model
+    plus a counter. -/
+theorem verify_ticked_erases (L : LayoutOps) (KF : LayoutCostFn) (H : Hashes) (stone6 : Bool)
+    (p : Stark.Proof) (sec : Felt) :
+    (verifyT L KF H stone6 p sec).out = Stark.verify L H stone6 p sec :=
+  verifyT_out L KF H stone6 p sec
+
+open Ticked in
+/-- For EVERY proof value (validated or not, accepted or not) the instrumented verifier takes at most
+    `verifyCost' L K p` steps, provided the layout callbacks cost what `K` declares.  `verifyCost'`
+    is the sum over the phases of `Stark.verify` of explicit expressions in the LENGTHS of the lists
+    in the proof and in the VALUES of `n_queries`, `n_layers`, `2^step` (`Proofs/TickedBoundsStark.lean`). -/
+theorem verify_ticks_le_cost (L : LayoutOps) (KF : LayoutCostFn) (K : LayoutCost) (hK : KF.BoundedBy K)
+    (H : Hashes) (stone6 : Bool) (p : Stark.Proof) (sec : Felt) :
+    (verifyT L KF H stone6 p sec).ticks ≤
+      -- the initial tick, `StarkConfig::validate`, `StarkDomains::new`
+      1 + Cost'.config p.config + Cost'.domains
+      -- `validate_public_input` + `verify_public_input` (callbacks), `PublicInput::get_hash`
+      + (K.piA + K.piB * p.publicInput.size) + Cost'.pubHash p.publicInput
+      -- `stark_commit`, `generate_queries`, `stark_verify`
+      + Cost'.commit L K p + Cost'.sampling p.config.nQueries.val + Cost'.phase K p :=
+  verifyT_ticks_le L KF K hK H stone6 p sec
+
+open Ticked in
+/-- HEADLINE.  Whenever `StarkConfig::validate` accepts the configuration of a proof, the instrumented
+    verifier takes at most `A_L + B_L · size` steps on it, where `size` is the number of field elements
+    (and machine integers) in the proof value and `A_L`, `B_L` depend only on the layout (its sizes and
+    the declared costs of its callbacks): no numeric field of the proof buys more than a constant. -/
+theorem verify_ticks_bounded (L : LayoutOps) (KF : LayoutCostFn) (K : LayoutCost) (hK : KF.BoundedBy K)
+    (H : Hashes) (stone6 : Bool) (p : Stark.Proof) (sec sec' n1 n2 : Felt)
+    (h : p.config.validate sec' n1 n2 = .ok ()) :
+    (verifyT L KF H stone6 p sec).ticks ≤ verifyCost' L K p ∧
+    verifyCost' L K p ≤
+      -- `A_L`
+      (K.piA + K.compA + 48 * K.oods + 2 * L.nInteractionElements + L.nConstraints + L.maskSize
+        + L.constraintDegree + 938307)
+      -- `B_L` times the number of field elements in the proof value
+      + (K.piB + K.compB + 50) * Stark.Proof.size p :=
+  ⟨verifyT_ticks_le L KF K hK H stone6 p sec,
+    verifyCost'_le L K p (Proofs.Cost.numericBounds_of_validate p.config sec' n1 n2 h)⟩
+
+open Ticked in
+/-- The contrast: the instrumented sampling loop returns what `Queries.sample` returns and takes `2 n`
+    steps (one iteration and one transcript squeeze per sample) for ANY `n` — without the
+    `n_queries ≤ 48` check the cost would be driven by the value of the field. -/
+theorem sampling_ticks_value_driven (H : Hashes) (bound : ℕ) (t : Transcript) (n : ℕ) :
+    (sampleT H bound n t).val = Queries.sample H bound n t ∧ (sampleT H bound n t).ticks = 2 * n :=
+  ⟨sampleT_val H bound n t, sampleT_ticks H bound n t⟩
+
+/-! per-function bounds of the instrumented semantics (each twin erases to its model function:
+    `Ticked.computeRootT_out`, `Ticked.tableDecommitT_out`, `Ticked.computeNextLayerT_out`, …) -/
+
+open Ticked in
+/-- `generate_queries`: sampling (`2 q`), insertion sort (`q² + q`), dedup (`q`) -/
+theorem generateQueries_ticks (H : Hashes) (t : Transcript) (n bound : Felt) :
+    (generateQueriesT H t n bound).ticks ≤ 1 + 2 * n.val + (n.val * n.val + n.val) + n.val :=
+  generateQueriesT_ticks H t n bound
+
+open Ticked in
+/-- `compute_root_from_queries`: at most `fuel` iterations, each one hash call and the re-queued parent -/
+theorem computeRoot_ticks (H : Hashes) (nf : Felt) (fuel : ℕ) (queue : List Vector.QD) (auths : List Felt) :
+    (computeRootT H nf fuel queue auths).ticks ≤ fuel * (queue.length + 2) :=
+  computeRootT_ticks H nf fuel queue auths
+
+open Ticked in
+/-- `table_decommit`, for ANY commitment (column count, height) and any indices: bounded by the numbers
+    of queries, values and authentication values SUPPLIED -/
+theorem tableDecommit_ticks (H : Hashes) (c : Table.Commitment) (queries values auths : List Felt) :
+    (tableDecommitT H c queries values auths).ticks ≤
+      1 + values.length + (2 * queries.length + 3 * values.length)
+        + (1 + Cost.F + queries.length + (queries.length + auths.length + 1) * (queries.length + 2)) :=
+  tableDecommitT_ticks H c queries values auths
+
+open Ticked in
+/-- `compute_next_layer`, for ANY indices and coset size `cs`: `|qs| + 1` iterations of coset loop,
+    `fri_formula`, one exponentiation and the growing `verify_y_values` -/
+theorem computeNextLayer_ticks (qs : List Fri.LayerQuery) (sibs : List Felt) (cs e : Felt) :
+    (computeNextLayerT qs sibs cs e).ticks ≤
+      1 + ((qs.length + 1) * (FF + Cost.F + 3 + 3 * cs.val + (qs.length + 1) * cs.val) + 2 * (qs.length + 1)) :=
+  computeNextLayerT_ticks qs sibs cs e
+
+open Ticked in
+/-- `fri_verify_layers`: one `Cost'.layer` per (step, witness) pair among the first `n`, for ANY `n` -/
+theorem verifyLayers_ticks (H : Hashes) (n : ℕ) (cs : List Table.Commitment) (ws : List Fri.LayerWitness)
+    (es steps : List Felt) (qs : List Fri.LayerQuery) :
+    (verifyLayersT H n cs ws es steps qs).ticks ≤ Cost'.layers qs.length (steps.take n) ws + 1 :=
+  verifyLayersT_ticks H qs.length n cs ws es steps qs (Nat.le_refl _)
+
+/-! Comparison with the hand-assembled `verifyCost` (`Model/Cost.lean`).  Under the charging scheme above
+    EVERY summand of `verifyCost` is too small by constant factors (it charges an iteration and the hash
+    call in it as one unit, and list slicing not at all).  Independently of such conventions it misses:
+    `StarkDomains::new` performs SIX exponentiations (`dom = 4·F`); `fri::Config::validate` computes
+    `2^step` in every iteration (`cfg = 16 + n_layers` has no `F`); every `vector_commitment_decommit`
+    computes `2^height`, every FRI layer `2^step`, `queries_to_points` the shift `2^(64 - log_eval)`,
+    `stark_commit` / `fri_commit` / `fri_verify` each `2^log_last_layer_degree_bound` (none of these `F`s is
+    in `dec`, `layers`, `pts`, `com`, `fri`); the Montgomery map and row hashing of the `nq · cs` values of
+    every FRI layer are counted once (`nq * cs`), the model touches each value four times; and
+    `eval_oods_boundary_poly_at_points` copies every decommitted trace value into the row it passes to
+    the layout (`ood = q · K.oods` has no term in the number of values).  `verifyCost' ≤ A + B·size`
+    still holds, with `A = … + 938307` instead of `… + 253070` and `B = … + 50` instead of `… + 52`. -/
+
 /-! ### non-vacuity -/
 
 /-- the hypothesis of `numeric_loop_bounds` / `cost_bound_partial` is satisfiable (the configuration of
@@ -187,6 +318,47 @@ example : exCfg.validate (Felt.ofNat 62) (Felt.ofNat 7) (Felt.ofNat 3) = .ok () 
 
 example : Cost.rounds exCfg.fri = 4 ∧
     ((exCfg.fri.friStepSizes.drop 1).take (Cost.rounds exCfg.fri)).map Cost.cosetSize = [16, 8, 4, 4] := by
+  decide +kernel
+
+/-- the hypotheses of `verify_ticks_bounded` are satisfiable: callback cost functions within a declared
+    `LayoutCost`, and (above) a configuration that validates; the bound is then a concrete number for
+    EVERY proof carrying that configuration -/
+private theorem exCfg_validates :
+    exCfg.validate (Felt.ofNat 62) (Felt.ofNat 7) (Felt.ofNat 3) = .ok () := by decide +kernel
+
+private def exKF : Ticked.LayoutCostFn where
+  evalComposition := fun _ pi mask _ _ _ _ => 5 + 2 * pi.size + 0 * mask.length
+  evalOods := fun _ _ _ _ _ _ _ => 7
+  validatePublicInput := fun pi _ => 3 + pi.size
+  verifyPublicInput := fun pi => 2 * pi.size
+
+private def exK : LayoutCost := ⟨5, 2, 7, 3, 3⟩
+
+example : exKF.BoundedBy exK :=
+  ⟨fun _ pi _ _ _ _ _ => by simp [exKF, exK], fun _ _ _ _ _ _ _ => by simp [exKF, exK],
+    fun pi _ => by simp only [exKF, exK]; omega⟩
+
+example (L : LayoutOps) (hK : exKF.BoundedBy exK) (H : Hashes) (stone6 : Bool) (pi : PublicInput)
+    (u : Stark.UnsentCommitment) (w : Stark.Witness) (sec : Felt) :
+    (Ticked.verifyT L exKF H stone6 ⟨exCfg, pi, u, w⟩ sec).ticks ≤
+      (3 + 5 + 48 * 7 + 2 * L.nInteractionElements + L.nConstraints + L.maskSize + L.constraintDegree + 938307)
+        + (3 + 2 + 50) * Stark.Proof.size ⟨exCfg, pi, u, w⟩ :=
+  let h := verify_ticks_bounded L exKF exK hK H stone6 ⟨exCfg, pi, u, w⟩ sec (Felt.ofNat 62) (Felt.ofNat 7)
+    (Felt.ofNat 3) exCfg_validates
+  Nat.le_trans h.1 h.2
+
+/-- a complete run: on the toy proof that the model accepts (`Proofs/PipelineExample.lean`, one query, one
+    FRI layer) with unit-cost callbacks the instrumented verifier accepts after 5730 steps, and
+    `verifyCost'` of that proof is 6402; a proof rejected for insufficient security costs 3 steps -/
+private def unitKF : Ticked.LayoutCostFn :=
+  ⟨fun _ _ _ _ _ _ _ => 1, fun _ _ _ _ _ _ _ => 1, fun _ _ => 1, fun _ => 1⟩
+
+open Proofs.Pipeline.Toy in
+example :
+    (Ticked.verifyT toyL unitKF toyH false toyP (Felt.ofNat 31)).out = .ok (Felt.ofNat 1, Felt.ofNat 77) ∧
+    (Ticked.verifyT toyL unitKF toyH false toyP (Felt.ofNat 31)).ticks = 5730 ∧
+    Ticked.verifyCost' toyL ⟨1, 0, 1, 2, 0⟩ toyP = 6402 ∧
+    (Ticked.verifyT toyL unitKF toyH false toyP (Felt.ofNat 99)).ticks = 3 := by
   decide +kernel
 
 end Swiftness.C17
